@@ -29,6 +29,7 @@ func main() {
 		explain = flag.String("explain", "", "print only obligations whose construct key contains this string, with trails")
 		list    = flag.Bool("list", false, "list properties")
 		dumpInv = flag.Bool("dump-inventory", false, "print the function inventory of -repo (used to regenerate inventory.txt)")
+		dumpFH  = flag.Bool("dump-field-hints", false, "print the field-type table of -repo (used to regenerate fieldhints.txt)")
 		noInl   = flag.Bool("no-inlined-view", false, "do not fall back to the inlined view")
 	)
 	flag.Parse()
@@ -39,6 +40,17 @@ func main() {
 		}
 		sort.Strings(ids)
 		fmt.Println(strings.Join(ids, " "))
+		return
+	}
+	if *dumpFH {
+		p, err := loadProgram(*repo, "", false)
+		if err != nil {
+			fmt.Printf("ERROR load: %v\n", err)
+			os.Exit(2)
+		}
+		for _, k := range dumpFieldHints(p) {
+			fmt.Println(k)
+		}
 		return
 	}
 	if *dumpInv {
